@@ -491,8 +491,11 @@ class _Algorithm:
         x would otherwise cause difficulty when doing least squares minimization.
 
         """
+        # use float dtype so that the square root of the weights is not calculated with
+        # reduced precision if the input weights have a lower precision dtype
         weight_array = _check_optional_array(
-            self._size, weights, copy_input=copy_weights, check_finite=self._check_finite
+            self._size, weights, dtype=float, copy_input=copy_weights,
+            check_finite=self._check_finite
         )
         if self._sort_order is not None and weights is not None:
             weight_array = weight_array[self._sort_order]
